@@ -591,6 +591,10 @@ class FnEffect:
             for x in bk[1]:
                 out = av_join(out, self.load_sub(base, x, node, idx))
             return out
+        if h == "list" and self._index_is_copying(node.slice):
+            # TimedList.__getitem__ re-wraps self.df[item] (shape decided by C16.R1); a boolean mask / list index makes pandas
+            # copy the selected rows, so the new list shares nothing with the receiver (an integer slice would be a view)
+            return EMPTY
         if h in REPO_KINDS and bk[1] in self.M.classes:
             ms = self.ea.overrides(bk[1], "__getitem__")
             if ms:
